@@ -357,14 +357,14 @@ def check_team(ctx):
                      (0, dict(do=2, setlimit=1, grow=1, quit=1)), (2, dict(do=2, grow=1, shrink=1, setlimit=1, quit=1))]
     all_complete = True
     for limit, budget in programs:
-        ts, ns, complete = explore(limit, budget, max_runs=ctx.pick(1500, 60000))
+        ts, ns, complete = explore(limit, budget, max_runs=ctx.pick(1500, 6000))
         all_complete = all_complete and complete
         exh.append(dict(limit=limit, budget=budget, runs=len(ts), states=ns, complete=complete))
         ctx.log("explored real Team limit=%d budget=%s: %d runs, %d states, complete=%s" % (limit, budget, len(ts), ns, complete))
         traces += ts
     ctx.extra["exhaustive_schedules"] = exh
     ctx.exhaustive = all_complete
-    for _ in range(ctx.pick(700, 40000)):
+    for _ in range(ctx.pick(700, 15000)):
         limit, ops, hashes = random_history(ctx.rng, ctx.rng.randint(10, 45))
         traces.append(run_history(limit, ops, hashes))
     ctx.note_traces(traces)
@@ -378,7 +378,7 @@ def check_team(ctx):
                       dict(kind="team", limit=t["cfg"]["limit"], ops=t["ops"][:x.reached + 1], hashes=t["hashes"], rejected_at=x.reached))
     bad = {x.idx for x in rej}
     good = [t for i, t in enumerate(traces) if i not in bad and len(t["ev"]) >= 6]
-    ctx.selftest_rejects("TeamTrace", good[-300:], team_mutate, n=24)
+    _selftest(ctx, "TeamTrace", good[-300:], team_mutate, n=24)
 
 
 # ============================================================================ (b) real ThreadPool, real threads
@@ -543,11 +543,11 @@ def check_pool(ctx):
         raise MachineryError("TPool specification violates its own invariants: " + r.error)
     ctx.require_actions("TPoolMC", ["Start", "Adjust", "Submit", "Spawn", "Begin", "End", "Result", "Exit", "StopCall", "StopRet"])
     traces = []
-    for i in range(ctx.pick(60, 2000)):
+    for i in range(ctx.pick(60, 800)):
         script, mx, mn = pool_script(ctx.rng)
-        traces.append(pool_run(ctx.rng.randrange(1 << 30), script, mx, mn, timeout=20.0))
+        traces.append(pool_run(ctx.rng.randrange(1 << 30), script, mx, mn, timeout=60.0))
         if traces[-1]["ev"] and traces[-1]["ev"][-1]["e"] == "client_hang":
-            ctx.log("a ThreadPool run did not finish within 20 s (stop() or a call hangs); no further stress runs")
+            ctx.log("a ThreadPool run did not finish within 60 s (stop() or a call hangs); no further stress runs")
             break
     ctx.note_traces(traces)
     ctx.extra["threadpool_stress_runs"] = len(traces)
@@ -563,7 +563,21 @@ def check_pool(ctx):
                       dict(kind="pool", seed=t["seed"], script=t["script"], max=t["cfg"]["max"], min=t["cfg"]["min"], events=t["ev"][:x.reached + 1]))
     bad = {x.idx for x in rej}
     good = [t for i, t in enumerate(traces) if i not in bad]
-    ctx.selftest_rejects("TPoolTrace", good[-100:], pool_mutate, n=16)
+    _selftest(ctx, "TPoolTrace", good[-100:], pool_mutate, n=16)
+
+
+def _selftest(ctx, module, good, mutate_fn, n):
+    """Binding self-test on accepted traces; when violations leave too few accepted traces, it is skipped (never masks them)."""
+    from harness.core import MachineryError
+    try:
+        if not good:
+            raise MachineryError("selftest: no accepted trace to corrupt")
+        ctx.selftest_rejects(module, good, mutate_fn, n=n)
+    except MachineryError as e:
+        if ctx.violations and "no " in str(e):
+            ctx.log("selftest skipped (%s)" % e)
+        else:
+            raise
 
 
 def run(ctx):
